@@ -480,6 +480,9 @@ Proof. vm_compute. reflexivity. Qed.
 Lemma session_maps_accessed_under_lock : session_maps_locked = true.
 Proof. vm_compute. reflexivity. Qed.
 
+Lemma locks_released_on_every_path : locks_released = true.
+Proof. vm_compute. reflexivity. Qed.
+
 (* ---- the site inventory ---- *)
 
 Lemma sites_all_covered : forallb covered generated_sites = true.
